@@ -3,7 +3,7 @@
 import json, os
 V = os.path.dirname(os.path.dirname(os.path.abspath(__file__)))
 props = [json.loads(l) for l in open(os.path.join(V, "properties.jsonl"))]
-REPO_HOOKS = ["7e029ae", "0df1db7", "8132497", "16e39b1", "e144ece", "649bab8"]  # commits in /repo that add guarded hooks
+REPO_HOOKS = ["7e029ae", "0df1db7", "8132497", "16e39b1", "e144ece", "649bab8", "2429a1b", "f3ef150"]  # commits in /repo that add guarded hooks
 
 CHECKS = {
  "C20": dict(
